@@ -33,13 +33,29 @@ const hiElem = 8
 // Op is one step of a history.  D is the receiver (or the variable that is
 // assigned the result of a constructor), S lists source variables, A is an
 // item list, B a small extra argument.
+//
+// R asks for repetitions.  A Go map is iterated in a different order on every
+// call, so an answer that depends on the order in which the library happens to
+// walk an operand is wrong on SOME calls only: the predicates are evaluated
+// R more times (every call must give the reference answer); Intersect is
+// called R more times; Add, AddAll, Remove and RemoveAll are applied R more
+// times to a fresh copy of the receiver (built with the built-in map
+// operations) before they are applied to the variable itself.
+//
+// For the item-list operations (add, remove, hasall, hasany, new) a source
+// variable in S means: the item list is the members of that variable (in
+// reference order rotated by B), followed by A.
 type Op struct {
 	K string `json:"k"`
 	D int    `json:"d"`
 	S []int  `json:"s,omitempty"`
 	A []int  `json:"a,omitempty"`
 	B int    `json:"b,omitempty"`
+	R int    `json:"r,omitempty"`
 }
+
+// maxRep bounds Op.R.
+const maxRep = 1024
 
 // Case is a history.  Init holds the initial value of variables 0..len-1 as
 // element lists; JSON null means the nil set, [] the empty non-nil set.
@@ -179,6 +195,8 @@ type setRun[T comparable] struct {
 	nilRecvMut, selfOperand, popNonEmpty, popEmpty, probes     int
 	ctor, emptyIntersectArgs, nanCleared                       int
 	manyOperands, partition, wholeType                         int
+	near, repeated                                             int
+	nearCase                                                   bool // the history has a near operation
 }
 
 // universe is what the compl operation complements in: every value of the
@@ -220,11 +238,81 @@ func (r *setRun[T]) hasSweep() []int {
 	}
 	// the 1-byte kinds: both ends and the middle of the type, the probe, and a
 	// window of 8 values that moves with the step
+	if r.d.univ < 256 {
+		// the zero-size kind: one value in all
+		r.sweep = r.sweep[:0]
+		for x := 0; x < r.d.univ; x++ {
+			r.sweep = append(r.sweep, x)
+		}
+		return r.sweep
+	}
 	r.sweep = append(r.sweep[:0], sweepByte...)
 	for i := 0; i < 8; i++ {
 		r.sweep = append(r.sweep, ((r.step+1)*8+i)&255)
 	}
 	return r.sweep
+}
+
+// domain is the half-open range of model values the element kind can express.
+func (r *setRun[T]) domain() (lo, hi int) {
+	switch {
+	case r.d.univ > 0:
+		return 0, r.d.univ
+	case r.c.Elem == "":
+		return domLo, 1 << 13 // the ints are the members
+	}
+	return domLo, domHi
+}
+
+// freshVals lists up to k model values of the kind's domain that ref does not
+// hold (and that are not the probe element), searching upwards from start and
+// wrapping around.
+func (r *setRun[T]) freshVals(start, k int, ref rset) []int {
+	lo, hi := r.domain()
+	w := hi - lo
+	off := ((start-lo)%w + w) % w
+	out := make([]int, 0, k)
+	for i := 0; i < w && len(out) < k; i++ {
+		x := lo + (off+i)%w
+		if ref.has(x) || (r.d.univ == 0 && x == probe) {
+			continue
+		}
+		out = append(out, x)
+	}
+	return out
+}
+
+// holds reports whether s holds exactly the members of want; it uses the
+// built-in map operations only.
+func (r *setRun[T]) holds(s mapset.Set[T], want rset) bool {
+	if len(s) != len(want) {
+		return false
+	}
+	for e := range s {
+		if x, ok := r.d.val(e); !ok || !want.has(x) {
+			return false
+		}
+	}
+	return true
+}
+
+// callNo says which of the repeated calls a message is about.
+func callNo(i, nrep int) string {
+	if nrep == 0 {
+		return ""
+	}
+	return fmt.Sprintf(" (call %d of %d with the same operands)", i+1, nrep+1)
+}
+
+// reps is the number of extra evaluations an operation asks for.
+func reps(op Op) int { return min(max(op.R, 0), maxRep) }
+
+// brief renders an item list for a message.
+func brief(xs []int) string {
+	if len(xs) <= 32 {
+		return fmt.Sprint(xs)
+	}
+	return fmt.Sprintf("[%d items, as a set %v]", len(xs), norm(xs))
 }
 
 var sweepOpen, sweepByte = func() (a, b []int) {
@@ -253,7 +341,18 @@ func (r *setRun[T]) errf(format string, args ...any) string {
 }
 
 func (r *setRun[T]) opString(op Op) string {
-	return fmt.Sprintf("{k:%s d:%d s:%v a:%v b:%d}", op.K, op.D, op.S, op.A, op.B)
+	if op.R != 0 {
+		return fmt.Sprintf("{k:%s d:%d s:%v a:%s b:%d r:%d}", op.K, op.D, op.S, brief(op.A), op.B, op.R)
+	}
+	return fmt.Sprintf("{k:%s d:%d s:%v a:%s b:%d}", op.K, op.D, op.S, brief(op.A), op.B)
+}
+
+// nonneg folds a drawn int onto the non-negative ones.
+func nonneg(i int) int {
+	if i < 0 {
+		i = -(i + 1)
+	}
+	return i
 }
 
 func vi(i int) int {
@@ -276,6 +375,19 @@ func (r *setRun[T]) mkSet(xs []int) mapset.Set[T] {
 	return mapset.Set[T](m)
 }
 
+// copyOf builds a copy of variable d (nil for nil) from its reference with
+// the built-in map operations.
+func (r *setRun[T]) copyOf(d int) mapset.Set[T] {
+	if r.vars[d] == nil {
+		return nil
+	}
+	m := make(mapset.Set[T], len(r.ref[d]))
+	for _, x := range r.ref[d] {
+		m[r.d.of(x)] = struct{}{}
+	}
+	return m
+}
+
 // checkVar compares one variable with its reference through the public API.
 func (r *setRun[T]) checkVar(i int) string {
 	s, want := r.vars[i], r.ref[i]
@@ -293,9 +405,11 @@ func (r *setRun[T]) checkVar(i int) string {
 	if r.d.univ == 0 && s.Has(r.d.of(probe)) {
 		return r.errf("var%d: holds the probe element %d that was never added to it", i, probe)
 	}
-	if r.d.univ > 0 && len(want) > 64 && r.untouched[i] && (r.step+i)%4 != 0 {
-		// 1-byte kinds, a large set that the step did not name: Len, IsEmpty and
-		// the Has sweep every step, the full listing every fourth step
+	if (r.d.univ > 0 && len(want) > 64 || r.nearCase && len(want) > 16) && r.untouched[i] && (r.step+i)%4 != 0 {
+		// 1-byte kinds, a large set that the step did not name (and any set of
+		// more than 16 members in a history with near copies, which is long and
+		// names two variables per step): Len, IsEmpty and the Has sweep every
+		// step, the full listing every fourth step
 		return ""
 	}
 	sl := s.Slice()
@@ -303,8 +417,12 @@ func (r *setRun[T]) checkVar(i int) string {
 		return r.errf("var%d: Slice = %s, want each member of %v exactly once", i, r.d.list(sl), want)
 	}
 	// Append: the prefix is preserved, then each member exactly once.
-	p7, p8 := r.d.of(r.d.univ-7), r.d.of(r.d.univ-8) // (model values -7, -8; 249, 248 for the 1-byte kinds)
-	pre := make([]T, 2, 2+(r.step+1+i)%3*len(want))  // spare capacity 0, 1x or 2x Len
+	x7, x8 := r.d.univ-7, r.d.univ-8 // (model values -7, -8; 249, 248 for the 1-byte kinds)
+	if r.d.univ > 0 && r.d.univ < 8 {
+		x7, x8 = 0, 0 // the zero-size kind has one value
+	}
+	p7, p8 := r.d.of(x7), r.d.of(x8)
+	pre := make([]T, 2, 2+(r.step+1+i)%3*len(want)) // spare capacity 0, 1x or 2x Len
 	pre[0], pre[1] = p7, p8
 	ap := s.Append(pre)
 	if len(ap) < 2 || ap[0] != p7 || ap[1] != p8 || pre[0] != p7 || pre[1] != p8 {
@@ -425,12 +543,12 @@ func (r *setRun[T]) probeAliasFull(d int, what string) string {
 				return r.errf("%s: result aliases var%d: adding %s to one of them made it appear in the other", what, j, r.d.one(pe))
 			}
 		} else {
-			pe := r.d.of(probe)
+			pe := r.d.of(probe % r.d.univ)
 			delete(a, pe)
 			_, still := b[pe]
 			a[pe] = struct{}{}
 			if !still {
-				return r.errf("%s: result aliases var%d: deleting %d from the result made it disappear from var%d", what, j, probe, j)
+				return r.errf("%s: result aliases var%d: deleting %d from the result made it disappear from var%d", what, j, probe%r.d.univ, j)
 			}
 		}
 	}
@@ -473,20 +591,59 @@ func (r *setRun[T]) apply(op Op) string {
 	if len(ss) > 0 {
 		s0 = ss[0]
 	}
-	items := norm(op.A)
+	la := op.A // the item list of the item-list operations
+	if len(ss) > 0 {
+		switch op.K {
+		case "add", "remove", "hasall", "hasany", "new":
+			src := r.ref[s0]
+			la = make([]int, 0, len(src)+len(op.A))
+			for i := range src {
+				la = append(la, src[(i+nonneg(op.B))%len(src)])
+			}
+			la = append(la, op.A...)
+		}
+	}
+	items := norm(la)
+	nrep := reps(op)
+	if nrep > 0 {
+		r.repeated++
+	}
+	// argsAt: the item list as members, for call i of the repeated calls.  An
+	// item list has the order the caller gives it, so a list that stands for
+	// the members of a variable is rotated a little further on every call (the
+	// odd item out visits positions spread over the whole list).
+	var dbl []T
+	argsAt := func(i int) []T {
+		if dbl == nil {
+			dbl = append(r.d.ofs(la), r.d.ofs(la)...)
+		}
+		n := len(la)
+		if i == 0 || n == 0 || len(ss) == 0 {
+			return dbl[:n:n]
+		}
+		k := i * ((n + nrep) / (nrep + 1)) % n
+		return dbl[k : k+n : k+n]
+	}
 	switch op.K {
 	case "add":
 		if r.vars[d] == nil {
 			r.nilRecvMut++
 		}
 		r.noteBinary(r.ref[d], items, r.vars[d] == nil, false)
-		ret := r.vars[d].Add(r.d.ofs(op.A)...)
-		r.ref[d] = r.ref[d].union(items)
+		args, want := argsAt(0), r.ref[d].union(items)
+		for i := 0; i < nrep; i++ {
+			cp := r.copyOf(d)
+			if ret := cp.Add(argsAt(i + 1)...); !r.holds(ret, want) || !r.holds(cp, want) {
+				return r.errf("call %d of %d on a copy of the receiver %v: Add(%s) gave %s, want %v", i+1, nrep+1, r.ref[d], brief(la), r.show(ret), want)
+			}
+		}
+		ret := r.vars[d].Add(args...)
+		r.ref[d] = want
 		if r.vars[d] == nil {
-			return r.errf("Add(%v) left the receiver nil", op.A)
+			return r.errf("Add(%s) left the receiver nil", brief(la))
 		}
 		if len(ret) != len(r.ref[d]) {
-			return r.errf("Add(%v) returned a set of %d elements, receiver should now be %v", op.A, len(ret), r.ref[d])
+			return r.errf("Add(%s) returned a set of %d elements, receiver should now be %v", brief(la), len(ret), r.ref[d])
 		}
 	case "addall":
 		if r.vars[d] == nil {
@@ -496,8 +653,15 @@ func (r *setRun[T]) apply(op Op) string {
 			r.selfOperand++
 		}
 		r.noteBinary(r.ref[d], r.ref[s0], r.vars[d] == nil, r.vars[s0] == nil)
+		want := r.ref[d].union(r.ref[s0])
+		for i := 0; i < nrep && d != s0; i++ {
+			cp := r.copyOf(d)
+			if ret := cp.AddAll(r.vars[s0]); !r.holds(ret, want) || (cp != nil && !r.holds(cp, want)) {
+				return r.errf("call %d of %d on a copy of the receiver %v: AddAll(var%d=%v) gave %s, want %v", i+1, nrep+1, r.ref[d], s0, r.ref[s0], r.show(ret), want)
+			}
+		}
 		ret := r.vars[d].AddAll(r.vars[s0])
-		r.ref[d] = r.ref[d].union(r.ref[s0])
+		r.ref[d] = want
 		if len(ret) != len(r.ref[d]) {
 			return r.errf("AddAll(var%d=%v) returned a set of %d elements, receiver should now be %v", s0, r.ref[s0], len(ret), r.ref[d])
 		}
@@ -510,18 +674,32 @@ func (r *setRun[T]) apply(op Op) string {
 		}
 	case "remove":
 		r.noteBinary(r.ref[d], items, r.vars[d] == nil, false)
-		ret := r.vars[d].Remove(r.d.ofs(op.A)...)
-		r.ref[d] = r.ref[d].minus(items)
+		args, want := argsAt(0), r.ref[d].minus(items)
+		for i := 0; i < nrep; i++ {
+			cp := r.copyOf(d)
+			if ret := cp.Remove(argsAt(i + 1)...); !r.holds(ret, want) || !r.holds(cp, want) {
+				return r.errf("call %d of %d on a copy of the receiver %v: Remove(%s) gave %s, want %v", i+1, nrep+1, r.ref[d], brief(la), r.show(ret), want)
+			}
+		}
+		ret := r.vars[d].Remove(args...)
+		r.ref[d] = want
 		if len(ret) != len(r.ref[d]) {
-			return r.errf("Remove(%v) returned a set of %d elements, receiver should now be %v", op.A, len(ret), r.ref[d])
+			return r.errf("Remove(%s) returned a set of %d elements, receiver should now be %v", brief(la), len(ret), r.ref[d])
 		}
 	case "removeall":
 		if d == s0 {
 			r.selfOperand++
 		}
 		r.noteBinary(r.ref[d], r.ref[s0], r.vars[d] == nil, r.vars[s0] == nil)
+		want := r.ref[d].minus(r.ref[s0])
+		for i := 0; i < nrep && d != s0; i++ {
+			cp := r.copyOf(d)
+			if ret := cp.RemoveAll(r.vars[s0]); !r.holds(ret, want) || !r.holds(cp, want) {
+				return r.errf("call %d of %d on a copy of the receiver %v: RemoveAll(var%d=%v) gave %s, want %v", i+1, nrep+1, r.ref[d], s0, r.ref[s0], r.show(ret), want)
+			}
+		}
 		ret := r.vars[d].RemoveAll(r.vars[s0])
-		r.ref[d] = r.ref[d].minus(r.ref[s0])
+		r.ref[d] = want
 		if len(ret) != len(r.ref[d]) {
 			return r.errf("RemoveAll(var%d=%v) returned a set of %d elements, receiver should now be %v", s0, r.ref[s0], len(ret), r.ref[d])
 		}
@@ -574,6 +752,53 @@ func (r *setRun[T]) apply(op Op) string {
 		// the package.
 		co := complOf(r.ref[s0], r.universe())
 		r.vars[d], r.ref[d] = r.mkSet(co), norm(co)
+	case "near":
+		// var d becomes a NEAR copy of var s0 (never nil), built with the built-in
+		// map operations, not by the package.  B%6 says how near: 0 the same
+		// members; 1 one member swapped for a fresh value (same size, one
+		// difference each way); 2 one member less; 3 one fresh member more;
+		// 4 as many fresh members and none in common; 5 as many members and
+		// exactly one in common.  A[0] picks the member concerned (position in
+		// the reference, modulo its length), A[1] says where the search for fresh
+		// values starts.  When the element kind runs out of fresh values the
+		// result just has fewer members.
+		src := r.ref[s0]
+		pick, start := 0, 0
+		if len(op.A) > 0 {
+			pick = op.A[0]
+		}
+		if len(op.A) > 1 {
+			start = op.A[1]
+		}
+		if len(src) > 0 {
+			pick = (pick%len(src) + len(src)) % len(src)
+		}
+		out := make([]int, 0, len(src)+1)
+		switch mode := nonneg(op.B) % 6; mode {
+		case 0, 3:
+			out = append(out, src...)
+			if mode == 3 {
+				out = append(out, r.freshVals(start, 1, src)...)
+			}
+		case 1, 2:
+			for i, x := range src {
+				if i != pick {
+					out = append(out, x)
+				}
+			}
+			if mode == 1 {
+				out = append(out, r.freshVals(start, 1, src)...)
+			}
+		case 4:
+			out = append(out, r.freshVals(start, len(src), src)...)
+		case 5:
+			if len(src) > 0 {
+				out = append(out, src[pick])
+				out = append(out, r.freshVals(start, len(src)-1, src)...)
+			}
+		}
+		r.near++
+		r.vars[d], r.ref[d] = r.mkSet(out), norm(out)
 	case "setnil":
 		r.vars[d] = nil
 		r.ref[d] = nil
@@ -589,13 +814,13 @@ func (r *setRun[T]) apply(op Op) string {
 		}
 	case "new":
 		r.ctor++
-		args := r.d.ofs(op.A)
+		args := r.d.ofs(la)
 		res := mapset.New(args...)
 		if res == nil {
-			return r.errf("New(%v) returned nil", op.A)
+			return r.errf("New(%s) returned nil", brief(la))
 		}
-		if !slices.Equal(args, r.d.ofs(op.A)) {
-			return r.errf("New(%v) modified its argument slice to %s", op.A, r.d.list(args))
+		if !slices.Equal(args, r.d.ofs(la)) {
+			return r.errf("New(%s) modified its argument slice to %s", brief(la), r.d.list(args))
 		}
 		r.vars[d], r.ref[d] = res, items
 		if msg := r.probeAlias(d, "New"); msg != "" {
@@ -612,6 +837,11 @@ func (r *setRun[T]) apply(op Op) string {
 			} else {
 				r.noteBinary(r.ref[ss[0]], r.ref[s], r.vars[ss[0]] == nil, r.vars[s] == nil)
 				want = want.inter(r.ref[s])
+			}
+		}
+		for i := 0; i < nrep && len(ss) > 0; i++ {
+			if res := mapset.Intersect(args...); res == nil || !r.holds(res, want) {
+				return r.errf("call %d of %d: Intersect of the variables %v gave %s, want %v", i+1, nrep+1, ss, r.show(res), want)
 			}
 		}
 		res := mapset.Intersect(args...)
@@ -744,28 +974,45 @@ func (r *setRun[T]) apply(op Op) string {
 			r.selfOperand++
 		}
 		r.noteBinary(r.ref[d], r.ref[s0], r.vars[d] == nil, r.vars[s0] == nil)
-		var got, want bool
+		var want bool
 		switch op.K {
 		case "intersects":
-			got, want = r.vars[d].Intersects(r.vars[s0]), len(r.ref[d].inter(r.ref[s0])) > 0
+			want = len(r.ref[d].inter(r.ref[s0])) > 0
 		case "issubset":
-			got, want = r.vars[d].IsSubset(r.vars[s0]), r.ref[d].subsetOf(r.ref[s0])
+			want = r.ref[d].subsetOf(r.ref[s0])
 		case "equals":
-			got, want = r.vars[d].Equals(r.vars[s0]), r.ref[d].equal(r.ref[s0])
+			want = r.ref[d].equal(r.ref[s0])
 		}
-		if got != want {
-			return r.errf("%s.%s(%s) = %v, want %v", r.show(r.vars[d]), op.K, r.show(r.vars[s0]), got, want)
+		for i := 0; i <= nrep; i++ {
+			var got bool
+			switch op.K {
+			case "intersects":
+				got = r.vars[d].Intersects(r.vars[s0])
+			case "issubset":
+				got = r.vars[d].IsSubset(r.vars[s0])
+			case "equals":
+				got = r.vars[d].Equals(r.vars[s0])
+			}
+			if got != want {
+				return r.errf("%s.%s(%s) = %v, want %v%s", r.show(r.vars[d]), op.K, r.show(r.vars[s0]), got, want, callNo(i, nrep))
+			}
 		}
 	case "hasall", "hasany":
 		r.noteBinary(r.ref[d], items, r.vars[d] == nil, false)
-		var got, want bool
-		if op.K == "hasall" {
-			got, want = r.vars[d].HasAll(r.d.ofs(op.A)...), items.subsetOf(r.ref[d])
-		} else {
-			got, want = r.vars[d].HasAny(r.d.ofs(op.A)...), len(items.inter(r.ref[d])) > 0
+		want := items.subsetOf(r.ref[d])
+		if op.K == "hasany" {
+			want = len(items.inter(r.ref[d])) > 0
 		}
-		if got != want {
-			return r.errf("%s.%s(%v) = %v, want %v", r.show(r.vars[d]), op.K, op.A, got, want)
+		for i := 0; i <= nrep; i++ {
+			var got bool
+			if op.K == "hasall" {
+				got = r.vars[d].HasAll(argsAt(i)...)
+			} else {
+				got = r.vars[d].HasAny(argsAt(i)...)
+			}
+			if got != want {
+				return r.errf("%s.%s(%s) = %v, want %v%s", r.show(r.vars[d]), op.K, r.d.list(argsAt(i)), got, want, callNo(i, nrep))
+			}
 		}
 	case "check":
 		// no operation: only the per-step comparison of every variable
@@ -801,12 +1048,17 @@ func runSet(c Case, o *vk.Obs) string {
 		return runSetOf(c, o, u8Dom())
 	case kindI8:
 		return runSetOf(c, o, i8Dom())
+	case kindUnit:
+		return runSetOf(c, o, unitDom())
 	}
 	return fmt.Sprintf("VK-INFRA unknown element kind %q", c.Elem)
 }
 
 func runSetOf[T comparable](c Case, o *vk.Obs, d *dom[T]) string {
 	r := &setRun[T]{c: c, d: d, step: -1}
+	for _, op := range c.Ops {
+		r.nearCase = r.nearCase || op.K == "near"
+	}
 	for i := 0; i < NV && i < len(c.Init); i++ {
 		r.vars[i] = r.mkSet(c.Init[i])
 		r.ref[i] = norm(c.Init[i])
@@ -859,6 +1111,8 @@ func runSetOf[T comparable](c Case, o *vk.Obs, d *dom[T]) string {
 	o.ClassIf(r.manyOperands > 0, "intersect_5_to_12_operands")
 	o.ClassIf(r.partition > 0, "binary_op_operands_partition_the_universe")
 	o.ClassIf(r.wholeType > 0, "set_holds_every_value_of_its_type")
+	o.ClassIf(r.near > 0, "near_copy_operand")
+	o.ClassIf(r.repeated > 0, "operation_repeated_on_the_same_operands")
 	o.Class("elem=" + kindName(c.Elem))
 	for _, op := range c.Ops {
 		o.Class("op:" + op.K) // number of cases containing the operation
